@@ -185,6 +185,37 @@ theorem all_targets_same_stage_kinds_sizes (t t' : Target) (stages : List StageD
     cases backendOf t <;> rfl
   rw [h t, h t']
 
+/-- **Partial.**  The HLSL text of an extern global / cbuffer declaration for DirectX and for Vulkan (any slots,
+    any spelling of the object types) is the same once `[[vk::binding]]` and `: register` are erased, unless a
+    buffer address is lowered (address kind *and* buffer addresses requested).  Missing for
+    `dx_vk_differ_only_in_annotations`: function bodies, struct members and the per-primitive attributes are not
+    modelled here (the harness compares the real sources token for token after erasure). -/
+theorem dx_vk_declarations_differ_only_in_annotations_partial {σ τ : Type} (spell : ObjKind → String)
+    (slot : σ) (slot' : τ) (name : String) (k : Option ObjKind) (arr : Arr) (sba : Bool)
+    (h : sba = false ∨ ∀ k', k = some k' → isBufferAddress k' = false) :
+    (declText (flagsOf (paramsFor .HlslForDirectX false)) spell slot name k arr).erase =
+    (declText (flagsOf (paramsFor .HlslForVulkan sba)) spell slot' name k arr).erase := by
+  cases k with
+  | none => simp [declText, DeclText.erase]
+  | some k' =>
+    rcases h with rfl | h
+    · simp [declText, DeclText.erase, flagsOf, paramsFor, paramsDefault]
+    · simp [declText, DeclText.erase, h k' rfl]
+
+/-- and the annotations themselves are where the property says: DirectX writes `: register`, Vulkan
+    `[[vk::binding]]`, never both, never neither -/
+theorem dx_register_vk_binding {σ : Type} (spell : ObjKind → String) (slot : σ) (name : String)
+    (k : Option ObjKind) (arr : Arr) (sba : Bool) :
+    let dx := declText (flagsOf (paramsFor .HlslForDirectX false)) spell slot name k arr
+    let vk := declText (flagsOf (paramsFor .HlslForVulkan sba)) spell slot name k arr
+    dx.register = some slot ∧ dx.vkBinding = none ∧ vk.register = none ∧ vk.vkBinding = some slot := by
+  simp [declText, flagsOf, paramsFor, paramsDefault]
+
+/-- the fuel bound of the macro model is sufficient (no result is an artefact of running out of fuel) -/
+theorem expand_fuel_irrelevant (ms : Table) (k : Nat) (t : Tok) :
+    expandTok ms (fuelFor ms + k) [] t = expandTok ms (fuelFor ms) [] t :=
+  RsslVerif.Lemmas.MacroLite.expand_fuel_irrelevant ms k t
+
 /-! ## 3. Reflected bindings -/
 
 /-- Tie to the source: the two back ends' ObjectType ↦ DescriptorType tables are the same table, the count rule
